@@ -58,4 +58,81 @@ def gcGroup (n : Nat) (key : K) : List (Ent K) → List Nat → Nat → List (K 
       if c ≤ n then emit key tombs e.ts ++ gcGroup n key rest [] c
       else gcGroup n key rest [] c
 
+
+/-! ## The policy language (`GarbageCollectionPolicy`) and its determiners
+
+`policy.collector(cursor, now_micros)` builds a tree of determiners shaped like the policy
+(`GarbageCollectionPolicy::determiner`); `GarbageCollector::next` is the same loop as `gcLoop`
+with `Determiner::retain` in place of `VersionsDeterminer::retain`.  `AnyDeterminer` /
+`AllDeterminer` call **every** child on every value (no short circuit: `retain |= d.retain(..)`),
+so each child sees the same sequence of calls whatever the others decide. -/
+
+/-- `GarbageCollectionPolicy` (numbers are `NonZeroU64`; the parser guarantees `1 ≤ n < 2^64`) -/
+inductive Policy where
+  | versions (n : Nat)
+  | expires (micros : Nat)
+  | any (ps : List Policy)
+  | all (ps : List Policy)
+
+/-- `Box<dyn Determiner>`: the policy tree with the run-time state of each node -/
+inductive Det (K : Type) where
+  | versions (n : Nat) (s : VState K)
+  | expires (threshold : Nat)
+  | any (ds : List (Det K))
+  | all (ds : List (Det K))
+
+section
+variable {K : Type}
+
+mutual
+/-- `GarbageCollectionPolicy::determiner(now_micros)`; `k0` is the determiner's initial `key`
+    (`vec![]` in the code, i.e. `some []` for byte-string keys; the theorems hold for any) -/
+def Policy.det (now : Nat) (k0 : Option K) : Policy → Det K
+  | .versions n => .versions n ⟨k0, 0⟩
+  | .expires micros => .expires (now - micros)     -- `now_micros.saturating_sub(micros)`
+  | .any ps => .any (Policy.dets now k0 ps)
+  | .all ps => .all (Policy.dets now k0 ps)
+def Policy.dets (now : Nat) (k0 : Option K) : List Policy → List (Det K)
+  | [] => []
+  | p :: ps => Policy.det now k0 p :: Policy.dets now k0 ps
+end
+
+variable [DecidableEq K]
+
+mutual
+/-- `Determiner::retain(key, tombstones, exists)`: the decision and the new state -/
+def Det.retain : Det K → K → List Nat → Nat → Bool × Det K
+  | .versions n s, key, tombs, _ => ((vRetain n s key tombs).1, .versions n (vRetain n s key tombs).2)
+  | .expires th, _, _, ts => (decide (th ≤ ts), .expires th)
+  | .any ds, key, tombs, ts =>
+    ((Det.retainAll ds key tombs ts).1.any id, .any (Det.retainAll ds key tombs ts).2)
+  | .all ds, key, tombs, ts =>
+    ((Det.retainAll ds key tombs ts).1.all id, .all (Det.retainAll ds key tombs ts).2)
+/-- every child is asked, in order -/
+def Det.retainAll : List (Det K) → K → List Nat → Nat → List Bool × List (Det K)
+  | [], _, _, _ => ([], [])
+  | d :: ds, key, tombs, ts =>
+    ((d.retain key tombs ts).1 :: (Det.retainAll ds key tombs ts).1,
+     (d.retain key tombs ts).2 :: (Det.retainAll ds key tombs ts).2)
+end
+
+/-- `GarbageCollector::next` drained, for any determiner; `kb` is `key_backing` -/
+def gcLoopD : List (Ent K) → K → List Nat → Det K → List (K × Nat)
+  | [], _, _, _ => []
+  | e :: rest, kb, tombs, d =>
+    if e.tomb then gcLoopD rest e.key ((if kb = e.key then tombs else []) ++ [e.ts]) d
+    else
+      if (d.retain e.key (if kb = e.key then tombs else []) e.ts).1 then
+        emit e.key (if kb = e.key then tombs else []) e.ts
+          ++ gcLoopD rest e.key [] (d.retain e.key (if kb = e.key then tombs else []) e.ts).2
+      else gcLoopD rest e.key [] (d.retain e.key (if kb = e.key then tombs else []) e.ts).2
+
+/-- `policy.collector(cursor, now)` drained -/
+def gcP (p : Policy) (now : Nat) (k0 : Option K) (m : List (Ent K)) : List (K × Nat) :=
+  match m with
+  | [] => []
+  | e :: _ => gcLoopD m e.key [] (p.det now k0)
+
+end
+
 end Blue.Gc
